@@ -99,13 +99,34 @@ def temp_pass(fn: ast.FunctionDef, qual: str, known_locals: Dict[str, set], log:
                 t = st.targets[0] if isinstance(st, ast.Assign) and len(st.targets) == 1 else (st.target if isinstance(st, ast.AnnAssign) else None)
                 if not isinstance(t, ast.Name) or t.id in known or t.id in params or binds.get(t.id) != 1:
                     continue
-                nxt = blk[i + 1]
-                if not _pure_temp_value(st.value):
+                # the statement that reads it: the next one, or a later one when everything in between is "quiet"
+                # (plain assignments of pure values to other names, which cannot change what the temporary's expression reads)
+                j = i + 1
+                value_names = {x.id for x in ast.walk(st.value) if isinstance(x, ast.Name)}
+                while j < len(blk) - 0 and j < len(blk):
+                    cand = blk[j]
+                    reads_here = any(isinstance(x, ast.Name) and x.id == t.id and isinstance(x.ctx, ast.Load) for x in ast.walk(cand))
+                    if reads_here:
+                        break
+                    quiet = isinstance(cand, (ast.Assign, ast.AnnAssign)) and cand.value is not None and _pure_temp_value(cand.value) \
+                        and all(isinstance(tt, ast.Name) and tt.id not in value_names for tt in (cand.targets if isinstance(cand, ast.Assign) else [cand.target]))
+                    if not quiet:
+                        j = len(blk)
+                        break
+                    j += 1
+                if j >= len(blk):
+                    continue
+                nxt = blk[j]
+                getlike = isinstance(st.value, ast.Call) and isinstance(st.value.func, ast.Attribute) and st.value.func.attr == "get" and isinstance(st.value.func.value, ast.Name) \
+                    and all(_pure_temp_value(a_) for a_ in st.value.args) and not st.value.keywords
+                if getlike and any(isinstance(x, ast.Name) and x.id == st.value.func.value.id for c_ in blk[i + 1:j] for x in ast.walk(c_)):
+                    getlike = False      # the table is touched in between
+                if not _pure_temp_value(st.value) and not getlike:
                     # any value may be moved when the next statement does nothing but pass it on: `return t`, `x = t`
                     passes_on = (isinstance(nxt, ast.Return) and isinstance(nxt.value, ast.Name) and nxt.value.id == t.id) or \
                         (isinstance(nxt, (ast.Assign, ast.AnnAssign)) and isinstance(nxt.value, ast.Name) and nxt.value.id == t.id
                          and all(isinstance(x, ast.Name) for x in (nxt.targets if isinstance(nxt, ast.Assign) else [nxt.target])))
-                    if not passes_on:
+                    if not passes_on or j != i + 1:
                         continue
                 if isinstance(nxt, (ast.Assign, ast.AnnAssign, ast.AugAssign, ast.Expr, ast.Return)):
                     header = [nxt]
@@ -114,6 +135,8 @@ def temp_pass(fn: ast.FunctionDef, qual: str, known_locals: Dict[str, set], log:
                 elif isinstance(nxt, ast.For):
                     header = [nxt.iter]
                 else:
+                    continue
+                if getlike and isinstance(nxt, (ast.Assign, ast.AugAssign)) is False:
                     continue
                 all_uses = [n for n in ast.walk(fn) if isinstance(n, ast.Name) and n.id == t.id and isinstance(n.ctx, ast.Load)]
                 hdr_uses = [n for h in header for n in ast.walk(h) if isinstance(n, ast.Name) and n.id == t.id and isinstance(n.ctx, ast.Load)]
@@ -993,7 +1016,66 @@ def _attr_chain(e) -> Optional[List[str]]:
     return None
 
 
+def _split_chained(fn: ast.FunctionDef, log: List[str], mod: str) -> None:
+    """`self.x = d = V` (one attribute path, one plain name) is `self.x = V` followed by `d = self.x`."""
+    binds: Dict[str, int] = {}
+    for n in _walk_own(fn):
+        if isinstance(n, ast.Name) and isinstance(n.ctx, (ast.Store, ast.Del)):
+            binds[n.id] = binds.get(n.id, 0) + 1
+    for n in _walk_own(fn):
+        for f in ("body", "orelse", "finalbody"):
+            blk = getattr(n, f, None)
+            if not (isinstance(blk, list) and blk and isinstance(blk[0], ast.stmt)) or isinstance(n, (ast.FunctionDef, ast.AsyncFunctionDef, ast.ClassDef)):
+                continue
+            _split_block(blk, log, mod, binds)
+    _split_block(fn.body, log, mod, binds)
+
+
+def _split_block(blk, log, mod, binds=None):
+    i = 0
+    while i < len(blk):
+        s = blk[i]
+        # `d = V` ; `self.x = d`   is   `self.x = V` ; `d = self.x`   (d bound only here)
+        if binds is not None and i + 1 < len(blk) and isinstance(s, (ast.Assign, ast.AnnAssign)) and s.value is not None:
+            t0 = s.targets[0] if isinstance(s, ast.Assign) and len(s.targets) == 1 else (s.target if isinstance(s, ast.AnnAssign) else None)
+            nx_ = blk[i + 1]
+            if isinstance(t0, ast.Name) and binds.get(t0.id) == 1 and isinstance(nx_, ast.Assign) and len(nx_.targets) == 1 and _attr_chain(nx_.targets[0]) is not None \
+                    and isinstance(nx_.value, ast.Name) and nx_.value.id == t0.id and not isinstance(s.value, (ast.Name, ast.Constant)):
+                chain_t = nx_.targets[0]
+                first = ast.copy_location(ast.Assign(targets=[chain_t], value=s.value, lineno=s.lineno, col_offset=s.col_offset), s)
+                load = copy.deepcopy(chain_t)
+                for x in ast.walk(load):
+                    if isinstance(x, (ast.Attribute, ast.Name)):
+                        x.ctx = ast.Load()
+                second = ast.copy_location(ast.Assign(targets=[ast.Name(id=t0.id, ctx=ast.Store())], value=load, lineno=nx_.lineno, col_offset=nx_.col_offset), nx_)
+                ast.fix_missing_locations(first)
+                ast.fix_missing_locations(second)
+                chain_t._pre_alias = True
+                blk[i:i + 2] = [first, second]
+                log.append(f"A {mod}:{s.lineno} `{t0.id} = ..; {ast.unparse(chain_t)} = {t0.id}` turned round")
+                i += 2
+                continue
+        if isinstance(s, ast.Assign) and len(s.targets) == 2:
+            names = [t for t in s.targets if isinstance(t, ast.Name)]
+            chains = [t for t in s.targets if _attr_chain(t) is not None]
+            if len(names) == 1 and len(chains) == 1:
+                first = ast.copy_location(ast.Assign(targets=[chains[0]], value=s.value, lineno=s.lineno, col_offset=s.col_offset), s)
+                load = copy.deepcopy(chains[0])
+                for x in ast.walk(load):
+                    if isinstance(x, (ast.Attribute, ast.Name)):
+                        x.ctx = ast.Load()
+                second = ast.copy_location(ast.Assign(targets=[names[0]], value=load, lineno=s.lineno, col_offset=s.col_offset), s)
+                ast.fix_missing_locations(first)
+                ast.fix_missing_locations(second)
+                chains[0]._pre_alias = True      # this store precedes the alias taken by `second`
+                blk[i:i + 1] = [first, second]
+                log.append(f"A {mod}:{s.lineno} chained assignment split")
+                i += 1
+        i += 1
+
+
 def alias_pass(fn: ast.FunctionDef, cls: Optional[ast.ClassDef], log: List[str], mod: str) -> bool:
+    _split_chained(fn, log, mod)
     params = {a.arg for a in fn.args.posonlyargs + fn.args.args + fn.args.kwonlyargs}
     binds: Dict[str, int] = {}
     own = [n for n in _walk_own(fn)]
@@ -1006,11 +1088,13 @@ def alias_pass(fn: ast.FunctionDef, cls: Optional[ast.ClassDef], log: List[str],
             for x in n.names:
                 binds[x] = binds.get(x, 0) + 2
     attr_stores = set()
+    attr_store_pos: Dict[tuple, list] = {}
     for n in own:
         if isinstance(n, ast.Attribute) and isinstance(n.ctx, (ast.Store, ast.Del)):
             c = _attr_chain(n)
             if c:
                 attr_stores.add(tuple(c))
+                attr_store_pos.setdefault(tuple(c), []).append(n)
     called_self = {n.func.attr for n in own if isinstance(n, ast.Call) and isinstance(n.func, ast.Attribute) and isinstance(n.func.value, ast.Name) and n.func.value.id == "self"}
     callee_stores = set()
     if cls is not None:
@@ -1032,7 +1116,16 @@ def alias_pass(fn: ast.FunctionDef, cls: Optional[ast.ClassDef], log: List[str],
         root = chain[0]
         if binds.get(root, 0) > (0 if root in params else 1):
             continue
-        if any(tuple(chain[:k]) in attr_stores for k in range(2, len(chain) + 1)):
+        # the path may be (re)bound BEFORE the alias is taken (`self.x = {}` then `d = self.x`), never after it, and never
+        # inside a loop (it would run again)
+        def _blocks_alias(k):
+            for n_ in attr_store_pos.get(tuple(chain[:k]), []):
+                if getattr(n_, "_pre_alias", False) and not _in_loop(fn, n_):
+                    continue
+                if (n_.lineno, n_.col_offset) >= (st.lineno, st.col_offset) or _in_loop(fn, n_):
+                    return True
+            return False
+        if any(_blocks_alias(k) for k in range(2, len(chain) + 1)):
             continue
         if root == "self" and chain[1] in callee_stores:
             continue
@@ -1048,6 +1141,13 @@ def alias_pass(fn: ast.FunctionDef, cls: Optional[ast.ClassDef], log: List[str],
     if changed:
         ast.fix_missing_locations(fn)
     return changed
+
+
+def _in_loop(fn, node) -> bool:
+    for n in ast.walk(fn):
+        if isinstance(n, (ast.For, ast.While)) and any(node is x for b in n.body + n.orelse for x in ast.walk(b)):
+            return True
+    return False
 
 
 def _walk_own(fn):
